@@ -49,6 +49,7 @@ def shards(tier):
     out.append(("sizes",))
     for order in HIST_ORDERS:
         out.append(("hist", order))
+    out.append(("threads",))
     return out
 
 
@@ -197,6 +198,35 @@ def run_shard(shard):
                  [(a << 16) | 0xFFFF for a in range(256)]
         check_inst(res, A, FF, INST[shard[1]:shard[2]], frames)
         sample(res, {"inst_rw": [list(d) for d in INST[shard[1]:shard[2]]], "frames": len(frames)})
+    elif k == "threads":
+        # two threads decoding at once, from a never-used library (every k in a fresh forked child): thread A is suspended
+        # after each of its source lines inside the library in turn, thread B decodes a set of frames meanwhile
+        from dalimc.core.preempt import one_preemption
+        from dalimc.core import repo
+        probes = [(16, 0x0B00), (16, 0x8705), (16, 0xFF00), (16, 0xFD21), (16, 0xA300), (24, 0x0B0000 | 0x10000), (24, 0x8701FE), (24, 0xFF0000 | 0x10000),
+                  (24, 0xFD0130), (24, 0xC10000), (24, 0x0A0402), (8, 0x55)]
+
+        def describe(bits, v):
+            o = A.from_frame(FF(bits, v))
+            i = A.instance_from_frame(FF(bits, v)) if bits == 24 else None
+            return (None if o is None else (type(o).__name__, R.lib_addr(o)[0]), None if i is None else R.lib_instance(i))
+        from dalimc.core.preempt import _in_fork
+        # sequential reference - computed in a forked child too: THIS process must not use the decoder before the children are forked
+        want = _in_fork(lambda: [describe(b, v) for b, v in probes])
+        for first in ((16, 0x0B00), (24, 0x8701FE), (24, 0x0B0130)):
+            wa = _in_fork(lambda: describe(*first))
+            for r in one_preemption(lambda: describe(*first), lambda: [describe(b, v) for b, v in probes], repo.REPO):
+                res["evaluations"] += 1
+                res["transitions"] += 1
+                case = {"t": "threads", "first": list(first), "k": r["k"]}
+                if r["a"] != ("v", wa):
+                    add_violation(res, "C04:threads:first-decoder-wrong", f"thread A decoding {first} (suspended after line {r['k']}): {r['a']}, expected {wa}", case)
+                if r["preempted"] and r["b"] != ("v", want):
+                    bad = [(p, g, w_) for p, g, w_ in zip(probes, (r["b"][1] if r["b"] and r["b"][0] == "v" else [None] * len(probes)), want) if g != w_]
+                    add_violation(res, "C04:threads:second-decoder-wrong", f"thread A decoding {first} suspended after its line {r['k']} in the library; thread B "
+                                  f"meanwhile decoded (frame, got, expected) {bad[:3]} / {r['b'] if not bad else ''}", case)
+            res["distinct"].add(("threads", first))
+        sample(res, {"threads": "one preemption at every library line of the first decode; second thread decodes 12 frames"})
     elif k == "hist":
         run_history(res, A, FF, Frame, shard[1])
         sample(res, {"history_order": list(shard[1])})
@@ -338,6 +368,8 @@ def run_shard(shard):
 
 def replay(case):
     t = case["t"]
+    if t == "threads":
+        return run_shard(("threads",))["violations"]
     if ":after:" in t:
         order = tuple(t.split(":after:")[1].split(">"))
         return run_shard(("hist", order))["violations"]
